@@ -112,6 +112,11 @@ structure VRel (S : Static) (always : Bool) (B : Name → Prop) (st st' : BState
   frame : ∀ r d, r ∈ S.rules → IsD S r.name d → r.name ∉ new → Valid st r d → Valid st' r d
   memoNew : ∀ m, st'.memo.get m ≠ st.memo.get m → B m
   memoMono : ∀ m d, st.memo.get m = some d → st'.memo.get m = some d
+  /-- validity of a rule that was not executed is not changed either way -/
+  frameRev : ∀ r d, r ∈ S.rules → IsD S r.name d → r.name ∉ new → Valid st' r d → Valid st r d
+  /-- a rule that was finished without being executed was valid from the start -/
+  hitValid : ∀ m d r, st.memo.get m = none → st'.memo.get m = some d → S.findRule m = some r →
+    m ∉ new → Valid st r d
 
 theorem Valid_congr {st st' : BState} (hc : st'.cache = st.cache) (ho : st'.out = st.out) (r : Rule) (d : Dg) :
     Valid st' r d ↔ Valid st r d := by
@@ -124,6 +129,8 @@ theorem VRel.refl {S : Static} {always : Bool} {B : Name → Prop} {st : BState}
   frame := by intro r d _ _ _ hv; exact hv
   memoNew := by intro m hm; exact absurd rfl hm
   memoMono := by intro m d hm; exact hm
+  frameRev := by intro r d _ _ _ hv; exact hv
+  hitValid := by intro m d r h0 h1; rw [h0] at h1; cases h1
 
 theorem VRel.mono {S : Static} {always : Bool} {B B' : Name → Prop} {st st' : BState} {new : List Name}
     (hB : ∀ x, B x → B' x) (h : VRel S always B st st' new) : VRel S always B' st st' new where
@@ -136,6 +143,8 @@ theorem VRel.mono {S : Static} {always : Bool} {B B' : Name → Prop} {st st' : 
   frame := h.frame
   memoNew := fun m hm => hB m (h.memoNew m hm)
   memoMono := h.memoMono
+  frameRev := h.frameRev
+  hitValid := h.hitValid
 
 theorem VRel.trans {S : Static} {always : Bool} {rank : Name → Nat} (wf : WF S rank) {B : Name → Prop} {st st1 st2 : BState}
     {new1 new2 : List Name} (h1 : VRel S always B st st1 new1) (h2 : VRel S always B st1 st2 new2) :
@@ -169,6 +178,27 @@ theorem VRel.trans {S : Static} {always : Bool} {rank : Name → Nat} (wf : WF S
     · exact h2.memoNew m (by rw [h]; exact hm)
     · exact h1.memoNew m h
   memoMono := fun m d hm => h2.memoMono m d (h1.memoMono m d hm)
+  frameRev := by
+    intro r d hr hd hn hv
+    have hn1 : r.name ∉ new1 := fun h => hn (List.mem_append.mpr (Or.inl h))
+    have hn2 : r.name ∉ new2 := fun h => hn (List.mem_append.mpr (Or.inr h))
+    exact h1.frameRev r d hr hd hn1 (h2.frameRev r d hr hd hn2 hv)
+  hitValid := by
+    intro m d r h0 h2m hr hn
+    have hn1 : m ∉ new1 := fun h => hn (List.mem_append.mpr (Or.inl h))
+    have hn2 : m ∉ new2 := fun h => hn (List.mem_append.mpr (Or.inr h))
+    cases h1m : st1.memo.get m with
+    | some d1 =>
+      have := h2.memoMono m d1 h1m
+      rw [h2m] at this
+      cases this
+      exact h1.hitValid m d r h0 h1m hr hn1
+    | none =>
+      have hv1 := h2.hitValid m d r h1m h2m hr hn2
+      have hrm := findRule_some hr
+      refine h1.frameRev r d hrm.1 ?_ ?_ hv1
+      · rw [hrm.2]; exact h2.pre'.mdig m d h2m
+      · rw [hrm.2]; exact hn1
 
 /-- recording a finished node in the memo -/
 theorem VRel.ofMemoize {S : Static} {always : Bool} {B : Name → Prop} {st : BState} (h : VPre S st) {n : Name} {d : Dg}
@@ -221,6 +251,17 @@ theorem VRel.ofMemoize {S : Static} {always : Bool} {B : Name → Prop} {st : BS
     by_cases hmn : m = n
     · subst hmn; rw [hnone] at hm; cases hm
     · simp only [BState.memoize, AL.get_put_ne _ _ hmn]; exact hm
+  frameRev := by
+    intro r d' _ _ _ hv'
+    exact (Valid_congr (st := st) (st' := st.memoize n d) rfl rfl _ _).mp hv'
+  hitValid := by
+    intro m d' r h0 h1 hr _
+    by_cases hmn : m = n
+    · subst hmn
+      simp only [BState.memoize, AL.get_put_same, Option.some.injEq] at h1
+      subst h1; exact hv r hr
+    · simp only [BState.memoize, AL.get_put_ne _ _ hmn] at h1
+      rw [h0] at h1; cases h1
 
 end PubModel.C10
 
@@ -261,6 +302,10 @@ theorem VRel.ofExec {S : Static} {always : Bool} {rank : Name → Nat} (wf : WF 
     intro r' d' hr' hd' hne hv
     exact Valid_frame wf hrm.1 hr' (by rw [hrm.2]; exact hne) hdg
       (IsD_rule wf (findRule_of_mem wf hr') hd') hcache hout hv
+  have hframeRev : ∀ r' d', r' ∈ S.rules → IsD S r'.name d' → r'.name ≠ n → Valid st' r' d' → Valid st r' d' := by
+    intro r' d' hr' hd' hne hv
+    exact Valid_frame wf hrm.1 hr' (by rw [hrm.2]; exact hne) hdg
+      (IsD_rule wf (findRule_of_mem wf hr') hd') (fun x hx => (hcache x hx).symm) (fun o ho => (hout o ho).symm) hv
   exact {
     pre' := {
       kinv := by
@@ -295,7 +340,12 @@ theorem VRel.ofExec {S : Static} {always : Bool} {rank : Name → Nat} (wf : WF 
       intro r' d' hr' hd' hn hv
       exact hframe r' d' hr' hd' (by simpa using hn) hv
     memoNew := by intro m hm; rw [hmemo] at hm; exact absurd rfl hm
-    memoMono := by intro m d hm; rw [hmemo]; exact hm }
+    memoMono := by intro m d hm; rw [hmemo]; exact hm
+    frameRev := by
+      intro r' d' hr' hd' hn hv
+      exact hframeRev r' d' hr' hd' (by simpa using hn) hv
+    hitValid := by
+      intro m d r' h0 h1; rw [hmemo, h0] at h1; cases h1 }
 
 end PubModel.C10
 
